@@ -321,6 +321,85 @@ Theorem C14_model_is_source_single_treatment_effects : forall (E : Type) (v : vi
 Proof. exact src_view_single_effects_is_model. Qed.
 Print Assumptions C14_model_is_source_single_treatment_effects.
 
+(* ================= the small helpers of data.py, translated as well (Generated/SrcPlates.v) =================
+   The configurations of the other links (C06, C11, C13) use these helpers as PRIMITIVES; here they are whole translated
+   functions, equal to their models at the end of Model/Views.v for all inputs.  Props/C13.v and Props/C11.v then prove that,
+   read through the representation of the Retro vocabulary, they are the meaning those primitives were given. *)
+From Batchie Require Import Lib.PyRt Generated.SrcPlates Proofs.C14SourceHelpers.
+Open Scope Z_scope.
+
+(* ScreenBase.is_observed (np.all of the mask), n_plates (number of distinct plate ids), unique_sample_ids (np.unique),
+   n_unique_samples, unique_treatments (np.unique of ALL entries of the 2-d id array, minus the control sentinel),
+   n_unique_treatments, treatment_arity (shape[1]) - on a Screen object *)
+Theorem C14_model_is_source_screen_properties : forall s : pyscreen,
+  src_screen_is_observed s = Ok (screen_is_observed (snd s)) /\
+  src_screen_n_plates s = Ok (Z.of_nat (length (screen_unique_pids (snd s)))) /\
+  src_screen_unique_sample_ids s = Ok (screen_unique_sids (snd s)) /\
+  src_screen_n_unique_samples s = Ok (Z.of_nat (length (screen_unique_sids (snd s)))) /\
+  src_screen_unique_treatments s = Ok (screen_unique_treatments (snd s)) /\
+  src_screen_n_unique_treatments s = Ok (Z.of_nat (length (screen_unique_treatments (snd s)))) /\
+  src_screen_treatment_arity s = Ok (Z.of_nat (s_arity (snd s))).
+Proof. exact src_screen_props_are_model. Qed.
+Print Assumptions C14_model_is_source_screen_properties.
+
+(* ... and on a ScreenSubset / Plate object: the same one-liners over the view's attribute arrays *)
+Theorem C14_model_is_source_view_properties : forall v : view,
+  src_view_unique_plate_ids v = Ok (view_unique_pids v) /\
+  src_view_is_observed v = Ok (view_is_observed v) /\
+  src_view_n_plates v = Ok (Z.of_nat (length (view_unique_pids v))) /\
+  src_view_unique_sample_ids v = Ok (view_unique_sids v) /\
+  src_view_n_unique_samples v = Ok (Z.of_nat (length (view_unique_sids v))) /\
+  src_view_unique_treatments v = Ok (view_unique_treatments v) /\
+  src_view_n_unique_treatments v = Ok (Z.of_nat (length (view_unique_treatments v))) /\
+  src_view_treatment_arity v = Ok (Z.of_nat (s_arity (v_parent v))).
+Proof. exact src_view_props_are_model. Qed.
+Print Assumptions C14_model_is_source_view_properties.
+
+(* Plate.plate_id: the single distinct plate id of the selected rows, refused (29) for none or several *)
+Theorem C14_model_is_source_plate_id : forall v : view, src_plate_id v = view_plate_id v.
+Proof. exact src_plate_id_is_model. Qed.
+Print Assumptions C14_model_is_source_plate_id.
+
+(* Plate.plate_name: the plate NAME of the first selected row of the parent; IndexError (98) when nothing is selected *)
+Theorem C14_model_is_source_plate_name : forall v : view, src_plate_name v = view_plate_name v.
+Proof. exact src_plate_name_is_model. Qed.
+Print Assumptions C14_model_is_source_plate_name.
+
+(* Plate.__lt__: self.size < other.size *)
+Theorem C14_model_is_source_plate_lt : forall a b : view, src_plate_lt a b = Ok (view_lt a b).
+Proof. exact src_plate_lt_is_model. Qed.
+Print Assumptions C14_model_is_source_plate_lt.
+
+(* Plate.merge, the whole method: the identity check on the parents, self's selection becomes the union, the union's rows
+   get the name of the union's first row (self.plate_name is read AFTER the union is stored), the parent's plate ids are
+   re-encoded from the new names by the translated encode_1d_array_to_0_indexed_ids, self is returned *)
+Theorem C14_model_is_source_plate_merge : forall self other : view, src_plate_merge self other = view_merge self other.
+Proof. exact src_plate_merge_is_model. Qed.
+Print Assumptions C14_model_is_source_plate_merge.
+
+(* Screen.combine: refused for another control name; otherwise Screen(...) on the concatenation self-then-other of each of the
+   six per-row arrays (masks concatenated, not combined otherwise), observations and mask passed, no mappings *)
+Theorem C14_model_is_source_screen_combine : forall a b : pyscreen, src_screen_combine a b = screen_combine (snd a) (snd b).
+Proof. exact src_screen_combine_is_model. Qed.
+Print Assumptions C14_model_is_source_screen_combine.
+
+(* common.select_unique_zipped_numpy_arrays, whole: the equal-length check, vstack + transpose, np.unique(axis=0,
+   return_index=True) as the first-occurrence primitive, the zero mask with True stored at those indices.  On an empty list
+   of arrays numpy's vstack raises (17); the model is never applied to one *)
+Theorem C14_model_is_source_select_unique : forall cols : list (list Z),
+  src_select_unique cols = match cols with [] => Err 17 | _ => select_unique cols end.
+Proof. exact src_select_unique_is_model. Qed.
+Print Assumptions C14_model_is_source_select_unique.
+
+(* filter_dataset_to_unique_treatments, whole, on a ScreenSubset and on a Screen: the column list (sample ids, then one
+   treatment-id column per position, by the loop over treatment_arity), the unique mask, screen.subset(mask) *)
+Theorem C14_model_is_source_filter_unique :
+  (forall v : view, src_filter_unique_view v = filter_unique_view v) /\
+  (forall s : pyscreen, src_filter_unique_screen s = filter_unique_screen (fst s) (snd s)).
+Proof. exact (conj src_filter_unique_view_is_model src_filter_unique_screen_is_model). Qed.
+Print Assumptions C14_model_is_source_filter_unique.
+Open Scope nat_scope.
+
 (* ================= non-vacuity: concrete instances by computation ================= *)
 Definition ex_row (s p : Z) (t1 d1 t2 d2 : Z) (o : Z) (m : bool) : row :=
   {| r_sample := [s]; r_plate := [p]; r_treats := [([t1], d1); ([t2], d2)]; r_obs := o; r_mask := m |}.
@@ -386,3 +465,26 @@ Example C14_to_screen_may_renumber_ids :
     s_rows s = [nth 1 ex_rows (ex_row 0 0 0 0 0 0 0 false); nth 4 ex_rows (ex_row 0 0 0 0 0 0 0 false)] /\
     view_sids v = [1; 1]%Z /\ s_sids s = [0; 0]%Z.
 Proof. eexists. eexists. vm_compute. repeat split. Qed.
+
+(* Plate.merge through the translated source: plates 2 (rows 2, 5, name 99) and 0 (rows 1, 3, name 97) of the example screen.
+   The union takes the name of ITS first row in the parent (row 1: 97), the plate ids are re-encoded (two plates are left), the
+   merged plate is a view of the new parent; the parent's plate_mapping is not refreshed and still lists three names *)
+Example C14_ex_merge :
+  match (dor ps <- src_plates (0%Z, ex_screen); dor a <- list_get ps 0%Z; dor b <- list_get ps 2%Z; src_plate_merge b a) with
+  | Ok v => v_sel v = [false; true; true; true; false; true] /\
+            map r_plate (s_rows (v_parent v)) = [[98]; [97]; [97]; [97]; [98]; [97]]%Z /\
+            s_pids (v_parent v) = [1; 0; 0; 0; 1; 0]%Z /\ length (s_pmap (v_parent v)) = 3 /\
+            src_plate_id v = Ok 0%Z /\ src_plate_name v = Ok [97]%Z /\ src_view_n_plates v = Ok 1%Z
+  | Err _ => False
+  end.
+Proof. vm_compute. repeat split. Qed.
+(* the translated helpers on the example screen *)
+Example C14_ex_helpers :
+  src_screen_n_plates (0%Z, ex_screen) = Ok 3%Z /\ src_screen_n_unique_samples (0%Z, ex_screen) = Ok 2%Z /\
+  src_screen_is_observed (0%Z, ex_screen) = Ok false /\ src_screen_treatment_arity (0%Z, ex_screen) = Ok 2%Z /\
+  err_of (dor v <- src_screen_subset (0%Z, ex_screen) (true, repeat false 6); src_plate_name v) = Some 98%Z /\
+  err_of (dor v <- src_screen_subset (0%Z, ex_screen) (true, repeat true 6); src_plate_id v) = Some 29%Z /\
+  err_of (dor a <- src_get_plate (0%Z, ex_screen) 0%Z; dor b <- src_get_plate (1%Z, ex_screen) 1%Z; src_plate_merge a b) = Some 28%Z /\
+  option_map (fun s => map r_mask (s_rows s)) (match src_screen_combine (0%Z, ex_screen) (1%Z, ex_screen) with Ok s => Some s | Err _ => None end)
+  = Some [true; false; false; false; true; false; true; false; false; false; true; false].
+Proof. vm_compute. repeat split. Qed.
